@@ -102,6 +102,12 @@ template <typename T> cocls::async<void> c4_driver(c4_ctx &X, int mode, c4_resul
     driver_done.store(1, std::memory_order_release);
 }
 
+template <typename T> cocls::async<void> c4_start_inside(cocls::async<T> a, bool via_ctor, std::unique_ptr<cocls::future<T>> &fut, std::atomic<int> &done) {
+    if (via_ctor) fut.reset(new cocls::future<T>(std::move(a))); else fut.reset(new cocls::future<T>(a.start()));
+    fut->force_sync();
+    done.store(1, std::memory_order_release);
+    co_return;
+}
 template <typename T>
 void async_program(const vf::opts &o, vf::report &R, uint64_t pn, vf::rng &r, cocls::thread_pool &pool, int force_mode, int force_completion) {
     int mode = force_mode >= 0 ? force_mode : (int)r.below(AM_NMODES);
@@ -119,8 +125,11 @@ void async_program(const vf::opts &o, vf::report &R, uint64_t pn, vf::rng &r, co
     // thread-pool start on a pool that was stopped before: the coroutine is never started - it must not run, the future reports a broken
     // promise and the frame with its arguments is destroyed exactly once (same contract as a coroutine object that is never started)
     bool stopped_pool = (mode == AM_POOL_RUN || mode == AM_POOL_RUN_LVALUE) && r.chance(1, 4);
+    // start() / future<T>(async) issued from INSIDE a running coroutine that then consumes the bound future with the blocking form allowed
+    // in coroutines (force_sync) before its own next suspension: the started coroutine must run inside start(), not "later"
+    bool inside_force = (mode == AM_START || mode == AM_FUTURE_CTOR) && r.chance(1, 3);
     if (mode == AM_FUTURE_FN && false) X.depth = 1;
-    std::string desc = std::string(ftype_name<T>()) + " / " + am_name(mode) + (stopped_pool ? " [pool already stopped]" : "") + " / " + ac_name(X.completion) + " / depth " + std::to_string(X.depth) +
+    std::string desc = std::string(ftype_name<T>()) + " / " + am_name(mode) + (stopped_pool ? " [pool already stopped]" : "") + (inside_force ? " [from inside a coroutine, then force_sync()]" : "") + " / " + ac_name(X.completion) + " / depth " + std::to_string(X.depth) +
                        (premoves ? " / object moved " + std::to_string(premoves) + "x" : "") + (throws ? " throw@" + std::to_string(X.throw_level) : "") + (X.bomb_level >= 0 ? " unconstructible-result@" + std::to_string(X.bomb_level) : "") + (suspends ? (other_thread ? " / finished by another thread" : " / finished by the same thread") : "");
     vf::set_crash_ctx(R.prop.c_str(), "async_programs", o.seed, pn, desc.c_str());
     long live0 = tracked::live.load(), bad0 = tracked::bad.load();
@@ -142,7 +151,9 @@ void async_program(const vf::opts &o, vf::report &R, uint64_t pn, vf::rng &r, co
         switch (mode) {
         case AM_DETACH_DISCARD: bound = false; MK().detach(); open_later(); break;
         case AM_DETACH_AWAIT: bound = false; c4_driver<T>(X, mode, res, driver_done).detach(); open_later(); break;
-        case AM_START: fut = std::unique_ptr<cocls::future<T>>(new cocls::future<T>(MK().start())); open_later(); break;
+        case AM_START:
+            if (inside_force) { open_before_blocking(); c4_start_inside<T>(MK(), false, fut, driver_done).detach(); if (!driver_done.load() && err.empty()) err = "coroutine that started another one and blocked on its future did not finish"; break; }
+            fut = std::unique_ptr<cocls::future<T>>(new cocls::future<T>(MK().start())); open_later(); break;
         case AM_START_PROMISE:
         case AM_START_PROMISE_RV: {
             fut = std::make_unique<cocls::future<T>>();
@@ -179,7 +190,9 @@ void async_program(const vf::opts &o, vf::report &R, uint64_t pn, vf::rng &r, co
             res.have = true;
             break;
         }
-        case AM_FUTURE_CTOR: fut = std::unique_ptr<cocls::future<T>>(new cocls::future<T>(MK())); open_later(); break;
+        case AM_FUTURE_CTOR:
+            if (inside_force) { open_before_blocking(); c4_start_inside<T>(MK(), true, fut, driver_done).detach(); if (!driver_done.load() && err.empty()) err = "coroutine that started another one and blocked on its future did not finish"; break; }
+            fut = std::unique_ptr<cocls::future<T>>(new cocls::future<T>(MK())); open_later(); break;
         case AM_FUTURE_FN: fut = std::unique_ptr<cocls::future<T>>(new cocls::future<T>(c4_future_fn<T>(X, tracked(1)))); open_later(); break;
         case AM_POOL_RUN:
             if (stopped_pool) { cocls::thread_pool dead(1); dead.stop(); started = false; fut = std::unique_ptr<cocls::future<T>>(new cocls::future<T>(dead.run(MK()))); break; }
